@@ -179,7 +179,7 @@ theorem empty_interval (m : SliceMode) (coord : Nat → Rat) (n : Option Nat) (s
 /-! ## the three kinds -/
 
 theorem bounded_some (coord : Nat → Rat) (n : Nat) : BoundedBelow coord (some n) :=
-  fun _ => ⟨n, fun j hj _ => Nat.le_of_lt ((inDom_some _ _).1 hj)⟩
+  fun _ => ⟨n, fun _ hj _ => Nat.le_of_lt ((inDom_some _ _).1 hj)⟩
 
 theorem bounded_grid (n : Option Nat) : BoundedBelow setCoord n := by
   intro x
